@@ -32,13 +32,15 @@ type jobRun struct {
 }
 
 type episode struct {
-	sc      *Scenario
-	sim     *simcore.Sim
-	dir     string
-	res     *Result
-	faults  map[string]int
-	probes  map[string]int
-	devnull *os.File
+	poolModels    map[string]sdf.SDF3
+	poolRenderers map[string]render3er
+	sc            *Scenario
+	sim           *simcore.Sim
+	dir           string
+	res           *Result
+	faults        map[string]int
+	probes        map[string]int
+	devnull       *os.File
 }
 
 func buildPolicy(s Sched) (simcore.Policy, error) {
@@ -445,7 +447,7 @@ func (ep *episode) prepare(j *Job, jres *JobResult) (*jobRun, error) {
 	switch j.Kind {
 	case "script3":
 		items := genTriangles(j.N, j.Coords, j.CoordSeed)
-		r := &script3{jid: jr.jid, batches: splitBatches(items, j.Batches)}
+		r := &script3{jid: jr.jid, batches: splitBatches(items, j.Batches), closeAt: intSet(j.CloseAt)}
 		if j.Fault.Kind == "vanish" {
 			r.pre = func() { os.Remove(jr.state.path) }
 		}
@@ -454,7 +456,7 @@ func (ep *episode) prepare(j *Job, jres *JobResult) (*jobRun, error) {
 		return jr, ep.bind3(jr, nil, r, faulty)
 	case "script2":
 		items := genLines(j.N, j.Coords, j.CoordSeed)
-		r := &script2{jid: jr.jid, batches: splitBatches(items, j.Batches)}
+		r := &script2{jid: jr.jid, batches: splitBatches(items, j.Batches), closeAt: intSet(j.CloseAt)}
 		if j.Fault.Kind == "vanish" {
 			r.pre = func() { os.Remove(jr.state.path) }
 		}
@@ -470,19 +472,41 @@ func (ep *episode) prepare(j *Job, jres *JobResult) (*jobRun, error) {
 				return nil, err
 			}
 			model = m
+		} else if j.Share && ep.groupSize(j) == 1 && !j.Leaves {
+			// the program keeps the model in a variable and changes it with the library's setters
+			base, variant := splitVariant(j.Model)
+			if ep.poolModels == nil {
+				ep.poolModels = map[string]sdf.SDF3{}
+			}
+			if ep.poolModels[base] == nil {
+				ep.poolModels[base] = buildModel3(base, lw)
+			}
+			model = ep.poolModels[base]
+			applyVariant(base, variant, model)
 		} else {
 			model = buildModel3(j.Model, lw)
 		}
 		var inner render3er
-		switch j.Kind {
-		case "mcu":
-			inner = render.NewMarchingCubesUniform(j.Cells)
-		case "mco":
-			inner = render.NewMarchingCubesOctree(j.Cells)
-		case "dc3v2":
-			inner = &dcV2Adapter{r: dc.NewDualContouringDefault(j.Cells)}
-		case "dc3v1":
-			inner = &dcV1Adapter{r: dc.NewDualContouringV1(-1, 0, false), cells: j.Cells}
+		rkey := fmt.Sprintf("%s/%d", j.Kind, j.Cells)
+		if j.Share && ep.poolRenderers[rkey] != nil {
+			inner = ep.poolRenderers[rkey]
+		} else {
+			switch j.Kind {
+			case "mcu":
+				inner = render.NewMarchingCubesUniform(j.Cells)
+			case "mco":
+				inner = render.NewMarchingCubesOctree(j.Cells)
+			case "dc3v2":
+				inner = &dcV2Adapter{r: dc.NewDualContouringDefault(j.Cells)}
+			case "dc3v1":
+				inner = &dcV1Adapter{r: dc.NewDualContouringV1(-1, 0, false), cells: j.Cells}
+			}
+			if j.Share {
+				if ep.poolRenderers == nil {
+					ep.poolRenderers = map[string]render3er{}
+				}
+				ep.poolRenderers[rkey] = inner
+			}
 		}
 		tap := &tap3{inner: inner, jid: jr.jid}
 		if j.Fault.Kind == "vanish" {
@@ -857,6 +881,25 @@ func (a *dcV1Adapter) Render(s sdf.SDF3, out sdf.Triangle3Writer) {
 		out.Write([]*sdf.Triangle3{t})
 	}
 	out.Close()
+}
+
+func (ep *episode) groupSize(j *Job) int {
+	for _, g := range ep.sc.Groups {
+		for i := range g {
+			if g[i].ID == j.ID {
+				return len(g)
+			}
+		}
+	}
+	return 1
+}
+
+func intSet(xs []int) map[int]bool {
+	m := map[int]bool{}
+	for _, x := range xs {
+		m[x] = true
+	}
+	return m
 }
 
 func workDir() string {
